@@ -3,7 +3,7 @@ import json
 import subprocess
 import sys
 
-from . import adjacency, search, scc, serde, container, paired, cursor
+from . import adjacency, search, scc, serde, container, paired, cursor, ownership
 
 REGISTRY = {}
 REGISTRY.update(adjacency.CHECKS)
@@ -13,6 +13,7 @@ REGISTRY.update(serde.CHECKS)
 REGISTRY.update(container.CHECKS)
 REGISTRY.update(paired.CHECKS)
 REGISTRY.update(cursor.CHECKS)
+REGISTRY.update(ownership.CHECKS)
 
 
 def replay(pid, path):
